@@ -223,6 +223,11 @@ fn post(p: Parsed) {
             let _ = (f.contains(&1u64), f.bits_used(), f.capacity(), f.is_empty(), f.load_factor(), f.estimated_fpp(), f.num_hashes());
             f.insert(7u64);
             let _ = f.contains_and_insert(&8u64);
+            // the stored bit count is used as it was read until an operation recounts it (union / intersect do):
+            // inverting twice right after the inserts exercises it while it is still the stored one
+            f.invert();
+            f.invert();
+            let _ = (f.bits_used(), f.load_factor(), f.estimated_fpp(), f.is_empty());
             if f.capacity() <= 1 << 24 {
                 let mut o = BloomFilterBuilder::with_size(f.capacity() as u64, f.num_hashes()).seed(f.seed()).build();
                 o.insert(9u64);
